@@ -69,6 +69,7 @@ func runC08(c *core.Ctx) {
 	tableRule(c)
 	chainRule(c)
 	stepRule(c)
+	unpackedCopyRule(c)
 	for _, f := range []struct {
 		typ, name string
 		pack      bool
@@ -1337,7 +1338,9 @@ func wiringRule(c *core.Ctx, key string, fn *ssa.Function, pack bool) {
 		}
 		return nil, 0, false
 	}
-	var inBuf ssa.Value
+	var inBuf, outBuf ssa.Value
+	var inPhi, outPhi *ssa.Phi
+	var cursorProblems []string
 	ev := &bits.Eval{LeafName: func(v ssa.Value) string {
 		if li, ok := leafCache[v]; ok {
 			if li == nil {
@@ -1355,7 +1358,7 @@ func wiringRule(c *core.Ctx, key string, fn *ssa.Function, pack bool) {
 			return ""
 		}
 		root, lin := originOf(ia)
-		_, off, ok := offsetFromLin(lin)
+		cph, off, ok := offsetFromLin(lin)
 		if !ok {
 			return ""
 		}
@@ -1363,6 +1366,15 @@ func wiringRule(c *core.Ctx, key string, fn *ssa.Function, pack bool) {
 			inBuf = root
 		}
 		if root != inBuf {
+			return ""
+		}
+		// one cursor for the whole input: an element indexed from another loop variable (the count of units left, the
+		// output cursor) is a different element
+		if inPhi == nil {
+			inPhi = cph
+		}
+		if cph != inPhi {
+			cursorProblems = append(cursorProblems, fmt.Sprintf("input elements are indexed from two loop variables (%s and %s)", inPhi.Comment, cph.Comment))
 			return ""
 		}
 		leafCache[v] = &leafInfo{buf: root, off: off}
@@ -1388,8 +1400,17 @@ func wiringRule(c *core.Ctx, key string, fn *ssa.Function, pack bool) {
 				if _, isAlloc := ia.X.(*ssa.Alloc); isAlloc {
 					continue // varargs temporaries
 				}
-				_, olin := originOf(ia)
-				if _, j, ok := offsetFromLin(olin); ok {
+				oroot, olin := originOf(ia)
+				if oph, j, ok := offsetFromLin(olin); ok {
+					if outBuf == nil {
+						outBuf, outPhi = oroot, oph
+					}
+					if oroot != outBuf {
+						cursorProblems = append(cursorProblems, "packed octets are stored into two different buffers")
+					}
+					if oph != outPhi {
+						cursorProblems = append(cursorProblems, fmt.Sprintf("output octets are indexed from two loop variables (%s and %s)", outPhi.Comment, oph.Comment))
+					}
 					outs = append(outs, emitted{r: r, j: j, val: x.Val, pos: x.Pos(), blk: b})
 				}
 			case *ssa.Call:
@@ -1445,6 +1466,36 @@ func wiringRule(c *core.Ctx, key string, fn *ssa.Function, pack bool) {
 		return v
 	}
 	count := map[int64]int{}
+	defer func() {
+		if outBuf != nil && outBuf == inBuf {
+			cursorProblems = append(cursorProblems, "the packed octets are stored into the buffer the septets are read from")
+		}
+		if inPhi != nil && outPhi != nil && inPhi == outPhi {
+			cursorProblems = append(cursorProblems, "input and output are indexed by the same cursor (they advance by different amounts)")
+		}
+		// the count the branches test is what is left of the input: len(input) - input cursor, at the first turn and at
+		// every later one
+		if inBuf != nil && inPhi != nil {
+			switch rem := pl.remain.(type) {
+			case *ssa.Phi:
+				for i := range rem.Edges {
+					d := p.LinOf(rem.Edges[i]).Add(p.LinOf(inPhi.Edges[i]), 1).Add(p.LenOf(inBuf), -1)
+					if !d.IsConst() || d.C != 0 {
+						cursorProblems = append(cursorProblems, fmt.Sprintf("the count of units left (%s) is not len(input) - input cursor on every entry to the loop head (off by %s)", rem.Comment, d.String()))
+					}
+				}
+			case *ssa.BinOp:
+				okRem := false
+				if call, isC := rem.X.(*ssa.Call); isC && len(call.Call.Args) == 1 && call.Call.Args[0] == inBuf && rem.Y == ssa.Value(inPhi) {
+					okRem = true
+				}
+				if !okRem {
+					cursorProblems = append(cursorProblems, "the count of units left is not len(input) - input cursor")
+				}
+			}
+		}
+		c.Decide(len(cursorProblems) == 0, "C08-WIRING", key+"#cursors", pos, "one input buffer and cursor, one output buffer and cursor; units left = len(input) - input cursor", strings.Join(dedup(cursorProblems), "; "))
+	}()
 	for _, o := range outs {
 		got := ev.Of(o.val)
 		want := expect(o.r, o.j)
@@ -1543,6 +1594,16 @@ func wiringRule(c *core.Ctx, key string, fn *ssa.Function, pack bool) {
 					outAdv = 8 * r / 7
 				}
 				k := fmt.Sprintf("%s#r%d.advance.%s", key, r, ph.Comment)
+				// the cursor the inputs are read at advances by the units consumed, the one the outputs are stored at by
+				// the units produced
+				if ph == inPhi && d.C != inAdv {
+					c.Fail("C08-WIRING", k, pos, fmt.Sprintf("in the branch for %d units the input cursor %s advances by %d, expected %d", r, ph.Comment, d.C, inAdv))
+					continue
+				}
+				if ph == outPhi && d.C != outAdv {
+					c.Fail("C08-WIRING", k, pos, fmt.Sprintf("in the branch for %d units the output cursor %s advances by %d, expected %d", r, ph.Comment, d.C, outAdv))
+					continue
+				}
 				if d.C == inAdv || d.C == outAdv {
 					c.OK("C08-WIRING", k, pos, fmt.Sprintf("cursor %s advances by %d", ph.Comment, d.C))
 				} else {
@@ -1552,7 +1613,12 @@ func wiringRule(c *core.Ctx, key string, fn *ssa.Function, pack bool) {
 		}
 	}
 	if !pack {
-		block8Rule(c, key, fn, pl, outs8(outs))
+		seventh := func(ia *ssa.IndexAddr) bool {
+			root, lin := originOf(ia)
+			ph, off, ok := offsetFromLin(lin)
+			return ok && off == 6 && (inBuf == nil || root == inBuf) && (inPhi == nil || ph == inPhi)
+		}
+		block8Rule(c, key, fn, pl, outs8(outs), seventh)
 	}
 }
 
@@ -1573,7 +1639,7 @@ func outs8(outs []emitted) *ssa.BasicBlock {
 }
 
 // block8Rule: every path through the 7-octet branch that skips the eighth septet has established remain <= 7.
-func block8Rule(c *core.Ctx, key string, fn *ssa.Function, pl *packLoop, b8 *ssa.BasicBlock) {
+func block8Rule(c *core.Ctx, key string, fn *ssa.Function, pl *packLoop, b8 *ssa.BasicBlock, seventh func(*ssa.IndexAddr) bool) {
 	pos := c.Prog.Pos(fn.Pos())
 	if b8 == nil {
 		c.Fail("C08-BLOCK8", key, pos, "the 7-octet branch never appends an eighth septet")
@@ -1636,7 +1702,10 @@ func block8Rule(c *core.Ctx, key string, fn *ssa.Function, pl *packLoop, b8 *ssa
 			k, isK := constInt(bo.Y)
 			rawZero := isLoad && u.Op == token.MUL && isK && k == 0 && (bo.Op == token.GTR || bo.Op == token.EQL || bo.Op == token.NEQ)
 			if rawZero {
-				if _, ok := u.X.(*ssa.IndexAddr); !ok {
+				if ia, ok := u.X.(*ssa.IndexAddr); !ok {
+					rawZero = false
+				} else if seventh != nil && !seventh(ia) {
+					// a zero test of some other element (another buffer, another position) is a test on data like any other
 					rawZero = false
 				}
 			}
